@@ -24,7 +24,7 @@ use crate::{
         ed25519::Keypair,
         noise::{self, NoiseSocket},
     },
-    error::{Error, NegotiationError, SubstreamError},
+    error::{NegotiationError, SubstreamError},
     multistream_select::{dialer_select_proto, listener_select_proto, Negotiated, Version},
     protocol::{Direction, Permit, ProtocolCommand, ProtocolSet, SubstreamKeepAlive},
     substream,
@@ -530,7 +530,19 @@ impl TcpConnection {
                 // This permit will be passed on until the substream is reported to the
                 // [`TransportService`](crate::protocol::TransportService), where the connection
                 // will be upgraded and the permit won't be needed anymore.
-                let permit = self.protocol_set.try_get_permit().ok_or(Error::ConnectionClosed)?;
+                let Some(permit) = self.protocol_set.try_get_permit() else {
+                    // All protocols have released the connection: it is closing. Exit through
+                    // the same path as the other exits so that the closure is reported.
+                    tracing::debug!(
+                        target: LOG_TARGET,
+                        peer = ?self.peer,
+                        "inbound substream on a connection released by all protocols, closing",
+                    );
+                    self.protocol_set
+                        .report_connection_closed(self.peer, self.endpoint.connection_id())
+                        .await?;
+                    return Ok(true);
+                };
                 let open_timeout = self.substream_open_timeout;
 
                 self.pending_substreams.push(Box::pin(async move {
@@ -615,18 +627,21 @@ impl TcpConnection {
 
                 match (protocol, substream_id) {
                     (Some(protocol), Some(substream_id)) => {
-                        self.protocol_set
+                        // The protocol may have exited; that must not take the connection
+                        // down for the remaining protocols without anyone being told.
+                        if let Err(error) = self
+                            .protocol_set
                             .report_substream_open_failure(protocol.clone(), substream_id, error)
                             .await
-                            .inspect_err(|error| {
-                                tracing::error!(
-                                    target: LOG_TARGET,
-                                    ?protocol,
-                                    endpoint = ?self.endpoint,
-                                    ?error,
-                                    "failed to register substream open failure to protocol"
-                                );
-                            })?;
+                        {
+                            tracing::debug!(
+                                target: LOG_TARGET,
+                                ?protocol,
+                                endpoint = ?self.endpoint,
+                                ?error,
+                                "failed to register substream open failure to protocol"
+                            );
+                        }
                     }
                     _ => {}
                 }
@@ -647,7 +662,10 @@ impl TcpConnection {
                     self.protocol_set.protocol_codec(&protocol),
                 );
 
-                self.protocol_set
+                // The protocol may have exited; the substream is dropped (reset) in that case
+                // and the connection stays available to the remaining protocols.
+                if let Err(error) = self
+                    .protocol_set
                     .report_substream_open(
                         self.peer,
                         protocol.clone(),
@@ -656,16 +674,16 @@ impl TcpConnection {
                         opening_permit,
                     )
                     .await
-                    .inspect_err(|error| {
-                        tracing::error!(
-                            target: LOG_TARGET,
-                            ?protocol,
-                            peer = ?self.peer,
-                            endpoint = ?self.endpoint,
-                            ?error,
-                            "failed to register opened substream to protocol",
-                        );
-                    })?;
+                {
+                    tracing::debug!(
+                        target: LOG_TARGET,
+                        ?protocol,
+                        peer = ?self.peer,
+                        endpoint = ?self.endpoint,
+                        ?error,
+                        "failed to register opened substream to protocol",
+                    );
+                }
             }
         }
 
